@@ -65,6 +65,10 @@ def U_CRy(t):  # controlled Ry: asymmetric two-qubit, parametrised; control = fi
     return m
 
 
+def U_CRz(t):  # controlled Rz: exactly diagonal and NOT symmetric in its qubits (control = first qubit = bit 0)
+    return np.diag([1, np.exp(-0.5j * t), 1, np.exp(0.5j * t)]).astype(complex)
+
+
 def U_MS(a, t):  # Molmer-Sorensen-like, symmetric
     c, s = np.cos(t / 2), np.sin(t / 2)
     e = np.exp(1j * 2 * a)
@@ -112,6 +116,7 @@ RAW = {
     "CX": ([("c", Q), ("t", Q)], U_CX),
     "CP": ([("a", Q), ("t", F), ("b", Q)], U_CP),
     "CRy": ([("c", Q), ("t", Q), ("th", F)], U_CRy),
+    "CRz": ([("c", Q), ("t", Q), ("th", F)], U_CRz),
     "MS": ([("a", Q), ("b", Q), ("ph", F), ("t", F)], U_MS),
     "CCX": ([("a", Q), ("b", Q), ("c", Q)], U_CCX),
     "PW": ([("q", Q), ("k", I)], U_PW),
@@ -146,7 +151,7 @@ RAW_B.update({
     "X": (RAW["X"][0], U_H), "H": (RAW["H"][0], U_X), "S": (RAW["S"][0], U_T2), "T2": (RAW["T2"][0], U_S),
     "Rx": (RAW["Rx"][0], U_Ry), "Ry": (RAW["Ry"][0], U_Rz), "Rz": (RAW["Rz"][0], U_Rx),
     "CX": (RAW["CX"][0], _cx_rev), "CP": (RAW["CP"][0], lambda t: U_CP(-2 * t)),
-    "CRy": (RAW["CRy"][0], lambda t: U_CRy(-t)), "MS": (RAW["MS"][0], lambda a, t: U_MS(a + 0.5, t)),
+    "CRy": (RAW["CRy"][0], lambda t: U_CRy(-t)), "CRz": (RAW["CRz"][0], lambda t: U_CRz(-t)), "MS": (RAW["MS"][0], lambda a, t: U_MS(a + 0.5, t)),
     "CCX": (RAW["CCX"][0], _ccz), "PW": (RAW["PW"][0], lambda k: U_PW(-k)),
 })
 VARIANTS = {"A": RAW, "B": RAW_B}
